@@ -82,6 +82,10 @@ func c08Constructs() []c08Construct {
 	cs = append(cs, c08Construct{"loop of 2", func(b *c08Builder, in c08SO, id int) c08SO {
 		return c08SO{"{% for i in [1, 2] %}" + in.src + "{% endfor %}", in.out + in.out}
 	}})
+	cs = append(cs, c08Construct{"set-capture into one shared variable name, printed once", func(b *c08Builder, in c08SO, id int) c08SO {
+		// nested captures into the SAME name: the value is printed right after each endset, so the expectation is as for unique names
+		return c08SO{"{% set shared %}" + in.src + "{% endset %}.{{ shared }}", "." + in.out}
+	}})
 	cs = append(cs, c08Construct{"set-capture assigned through a filter expression", func(b *c08Builder, in c08SO, id int) c08SO {
 		n := "c" + itoa(id)
 		return c08SO{"{% set " + n + " %}" + in.src + "{% endset %}{{ " + n + "|wrap }}", c08Wrap(in.out)}
@@ -250,7 +254,7 @@ func init() {
 	core.Register(&core.Check{
 		ID:       "C08",
 		Category: "exploration",
-		Rule: "every nesting chain of depth <= 4 (thorough 5) over 18 capture constructs (set-capture printed 0/1/2 times or through a filter expression, filter sections with 11 chains of 1-3 non-commuting filters, macro call, block + block(), loop of 2) around a text marker, a print or parent(); unique markers before/after the nested construct at every level and a trailing marker; the same inside an overriding block of an inheritance host; and every pair of depth <= 2 chains side by side. " +
+		Rule: "every nesting chain of depth <= 4 (thorough 5) over 19 capture constructs (set-capture printed 0/1/2 times, into one shared variable name, or through a filter expression, filter sections with 11 chains of 1-3 non-commuting filters, macro call, block + block(), loop of 2) around a text marker, a print or parent(); unique markers before/after the nested construct at every level and a trailing marker; the same inside an overriding block of an inheritance host; and every pair of depth <= 2 chains side by side. " +
 			"The output is known by construction. distinct = distinct program; non-trivial = all",
 		Assumptions: []string{
 			"macro bodies print no outer variable and define no block; macros in an extending child are not claimed",
